@@ -1833,3 +1833,78 @@ Check C04_cost_punycode_decoder :
         snd (C04_CostPunyDec.dec_loop_c dbg it input false 0 1 Punycode.BASE 0 len0 Punycode.INITIAL_N Punycode.INITIAL_BIAS [])
         <= 2001 * N.of_nat (length input) + 1).
 Print Assumptions C04_cost_punycode_decoder.
+
+(* ================================================================== task c04c03inv *)
+From RU Require Proofs.C04_CheckReach Proofs.C02_Hist Proofs.C02_HistInst Proofs.C02_Reach4 Proofs.C02_Reach5 Proofs.C03_ReachFinEx Proofs.C09_Host.
+
+(* Url::check_invariants WITHOUT the premise ip_text_ok (Proofs/C04_CheckReach.v).  ip_text_ok hd u is the boolean form of
+   C03's host text invariant KT (C03_host_text_parse: every record parse_url returns; C03_views_reachable: every Reachable3
+   record).  (1) a fixpoint of re-parsing IS a parse result, so under HostWf alone check_invariants returns Ok(()) on every
+   fixpoint; (2) every record of C02's ReachC4 (C02_reach_partial4: fixpoint of re-parsing; hypotheses of C02) satisfies
+   ip_text_ok and check_invariants returns Ok(()) in both configurations of the history; (3) on a Reachable3 record
+   (hypotheses of C04_no_panic_reachable3) ip_text_ok holds, so check_invariants panics EXACTLY when the re-parse of the
+   serialization fails (C02's known classes) and returns Ok(()) on every fixpoint. *)
+Theorem C04_check_invariants_reach :
+  (forall dbg hp hpo hd u, C03_ReachParts.HostWf hp hpo hd -> C02_Reach.Fixpoint_of_reparse dbg hp hpo hd u ->
+     C04_CheckInv.check_invariants hd u (C02_Reach.reparse dbg hp hpo hd u) = C04_CheckInv.COk)
+  /\ (forall dbg hp hpo hd, C02_Hist.HostOK2 hp hpo hd -> C02_SetHostCanon.host_nonempty hp hpo ->
+      forall u, C02_Reach5.ReachC4 dbg hp hpo hd u ->
+      C04_CheckInv.ip_text_ok hd u = true
+      /\ C04_CheckInv.check_invariants hd u (C02_Reach.reparse dbg hp hpo hd u) = C04_CheckInv.COk)
+  /\ (forall hp hpo hd, C03_ReachParts.HostWf hp hpo hd -> C02_SetHostCanon.host_nonempty hp hpo ->
+      C03_AuthEnd.IpWf hd -> C05_Parser.HostOK hp hpo hd -> C05_Alphabet.IpOKv hd ->
+      forall dbg u, C02_Reach3.Reachable3 dbg hp hpo hd u ->
+      C04_CheckInv.ip_text_ok hd u = true
+      /\ forall dbg',
+         (C04_CheckInv.check_invariants hd u (C02_Reach.reparse dbg' hp hpo hd u) = C04_CheckInv.CPanic
+          <-> forall o, C02_Reach.reparse dbg' hp hpo hd u <> POk o)
+         /\ (C02_Reach.Fixpoint_of_reparse dbg' hp hpo hd u ->
+             C04_CheckInv.check_invariants hd u (C02_Reach.reparse dbg' hp hpo hd u) = C04_CheckInv.COk)).
+Proof.
+  split; [intros dbg hp hpo hd u HW F; exact (C04_CheckReach.check_invariants_fix hp hpo hd dbg u HW F)|].
+  split; [intros dbg hp hpo hd H1 H2 u R; exact (C04_CheckReach.check_invariants_reach hp hpo hd dbg H1 H2 u R)|].
+  intros hp hpo hd H1 H2 H3 H4 H5 dbg u R.
+  exact (conj (C04_CheckReach.reach3_ip_text_ok hp hpo hd H1 H2 H3 H4 H5 dbg u R)
+              (C04_CheckReach.check_invariants_reach3 hp hpo hd H1 H2 H3 H4 H5 dbg u R)).
+Qed.
+Check C04_check_invariants_reach :
+  (forall dbg hp hpo hd u, C03_ReachParts.HostWf hp hpo hd -> C02_Reach.Fixpoint_of_reparse dbg hp hpo hd u ->
+     C04_CheckInv.check_invariants hd u (C02_Reach.reparse dbg hp hpo hd u) = C04_CheckInv.COk)
+  /\ (forall dbg hp hpo hd, C02_Hist.HostOK2 hp hpo hd -> C02_SetHostCanon.host_nonempty hp hpo ->
+      forall u, C02_Reach5.ReachC4 dbg hp hpo hd u ->
+      C04_CheckInv.ip_text_ok hd u = true
+      /\ C04_CheckInv.check_invariants hd u (C02_Reach.reparse dbg hp hpo hd u) = C04_CheckInv.COk)
+  /\ (forall hp hpo hd, C03_ReachParts.HostWf hp hpo hd -> C02_SetHostCanon.host_nonempty hp hpo ->
+      C03_AuthEnd.IpWf hd -> C05_Parser.HostOK hp hpo hd -> C05_Alphabet.IpOKv hd ->
+      forall dbg u, C02_Reach3.Reachable3 dbg hp hpo hd u ->
+      C04_CheckInv.ip_text_ok hd u = true
+      /\ forall dbg',
+         (C04_CheckInv.check_invariants hd u (C02_Reach.reparse dbg' hp hpo hd u) = C04_CheckInv.CPanic
+          <-> forall o, C02_Reach.reparse dbg' hp hpo hd u <> POk o)
+         /\ (C02_Reach.Fixpoint_of_reparse dbg' hp hpo hd u ->
+             C04_CheckInv.check_invariants hd u (C02_Reach.reparse dbg' hp hpo hd u) = C04_CheckInv.COk)).
+Print Assumptions C04_check_invariants_reach.
+
+(* with the host MODEL: the only premise is IdnaOK idna *)
+Theorem C04_check_invariants_reach_model : forall dbg idna, C09_Host.IdnaOK idna ->
+  forall u, C02_Reach5.ReachC4 dbg (Host.host_parse idna) Host.host_parse_opaque Host.host_display u ->
+  C04_CheckInv.check_invariants Host.host_display u
+    (C02_Reach.reparse dbg (Host.host_parse idna) Host.host_parse_opaque Host.host_display u) = C04_CheckInv.COk.
+Proof.
+  intros dbg idna OK u R.
+  exact (proj2 (C04_CheckReach.check_invariants_reach _ _ _ dbg (C02_HistInst.HostOK2_model idna OK)
+                  (C02_Reach4.host_nonempty_model idna) u R)).
+Qed.
+Check C04_check_invariants_reach_model : forall dbg idna, C09_Host.IdnaOK idna ->
+  forall u, C02_Reach5.ReachC4 dbg (Host.host_parse idna) Host.host_parse_opaque Host.host_display u ->
+  C04_CheckInv.check_invariants Host.host_display u
+    (C02_Reach.reparse dbg (Host.host_parse idna) Host.host_parse_opaque Host.host_display u) = C04_CheckInv.COk.
+Print Assumptions C04_check_invariants_reach_model.
+
+(* non-vacuity: the hypotheses hold for the host model with the oracle idna_clean, and ReachC4 contains a record with an
+   IPv6 host: "http://[::1]:81/p?k=v" (C03_round_trips_reach_inhabited) *)
+Example C04_check_invariants_reach_inhabited :
+  (C02_Hist.HostOK2 C03_ReachFinEx.mhp0 Host.host_parse_opaque Host.host_display
+   /\ C02_SetHostCanon.host_nonempty C03_ReachFinEx.mhp0 Host.host_parse_opaque)
+  /\ C03_ReachFinEx.reachc4_example_stmt.
+Proof. exact (conj C03_ReachFinEx.reachfin_hyps C03_ReachFinEx.reachc4_example). Qed.
